@@ -78,7 +78,7 @@ pub fn gen_bytes(rng: &mut Rng, tier: Tier) -> Vec<u8> {
     let style = rng.below(6);
     let base = rng.below(256);
     let valid = b"ACGTacgt";
-    (0..len)
+    let mut out: Vec<u8> = (0..len)
         .map(|i| match style {
             // every byte value walks through every lane as `base` sweeps
             0 => ((base + i) % 256) as u8,
@@ -105,7 +105,29 @@ pub fn gen_bytes(rng: &mut Rng, tier: Tier) -> Vec<u8> {
             // arbitrary
             _ => rng.below(256) as u8,
         })
-        .collect()
+        .collect();
+    // dictionary: byte sequences that mean something to text tools (encoding signatures, record
+    // markers, line ends, gap / ambiguity / RNA letters) at the start, the end or inside
+    if rng.chance(1, 5) {
+        const TOKENS: [&[u8]; 24] = [
+            &[0xEF, 0xBB, 0xBF], &[0xFE, 0xFF], &[0xFF, 0xFE], &[0x00, 0x00, 0xFE, 0xFF], b">", b"@", b"+", b"\n", b"\r\n", b"\0", b" ", b"\t",
+            b"N", b"n", b"-", b"*", b".", b"U", b"u", b"RYKMSWBDHV", b"NNNNNNNNNNNNNNNNNNNNNNNNNNNNNNNNNNNN", b"acgtn", &[0x1A], &[0xC2, 0xA0],
+        ];
+        for _ in 0..rng.range(1, 3) {
+            let t = *rng.pick(&TOKENS);
+            match rng.below(4) {
+                0 | 1 => {
+                    out.splice(0..0, t.iter().cloned());
+                }
+                2 => out.extend_from_slice(t),
+                _ => {
+                    let at = rng.below(out.len() + 1);
+                    out.splice(at..at, t.iter().cloned());
+                }
+            }
+        }
+    }
+    out
 }
 
 fn hash_of(d: &DnaString) -> u64 {
@@ -442,6 +464,107 @@ pub fn hashn_family_digest(seed: u64, n: usize) -> u64 {
     d.0
 }
 
+/// Fresh-process leg "first use under racing callers": T threads are released together and each
+/// makes its FIRST call into the crate (conversion or rendering of its own input); every result is
+/// compared with the table. The inputs are a function of the seed; which thread gets there first
+/// is the operating system's choice (labelled observation, like `c19-large`).
+pub fn first_use_child(seed: u64) -> i32 {
+    use std::sync::atomic::{AtomicBool, AtomicUsize, Ordering};
+    use std::sync::Arc;
+    let mut rng = Rng::new(simcore::rng::derive(seed, "c16-first-use", 0));
+    let threads = rng.range(4, 16);
+    let family = rng.below(6);
+    let ready = Arc::new(AtomicUsize::new(0));
+    let go = Arc::new(AtomicBool::new(false));
+    let mut handles = Vec::new();
+    for t in 0..threads {
+        let len = rng.range(1, 300);
+        let bytes: Vec<u8> = (0..len).map(|_| if rng.chance(1, 12) { rng.below(256) as u8 } else { *rng.pick(b"ACGTacgt") }).collect();
+        // mostly every thread makes the same kind of first call (the worst case for a lazily
+        // initialised table), sometimes a mix
+        let op = if rng.chance(3, 4) { family } else { rng.below(6) };
+        let (ready, go) = (ready.clone(), go.clone());
+        handles.push(std::thread::spawn(move || -> Result<(), String> {
+            let model: Vec<u8> = bytes.iter().map(|b| table(*b)).collect();
+            let text: Vec<u8> = model.iter().map(|b| b"ACGT"[*b as usize]).collect();
+            let ascii_only: String = bytes.iter().map(|b| if b.is_ascii() { *b as char } else { 'N' }).collect();
+            ready.fetch_add(1, Ordering::SeqCst);
+            while !go.load(Ordering::SeqCst) {
+                std::hint::spin_loop();
+            }
+            let (what, got_bases, got_text): (&str, Vec<u8>, Vec<u8>) = match op {
+                0 => {
+                    let d = DnaString::from_acgt_bytes(&bytes);
+                    ("from_acgt_bytes + to_ascii_vec", d.to_bytes(), d.to_ascii_vec())
+                }
+                1 => {
+                    let d = DnaString::from_bytes(&model);
+                    ("from_bytes + to_string", d.to_bytes(), d.to_string().into_bytes())
+                }
+                2 => {
+                    let d = DnaString::from_bytes(&model);
+                    ("from_bytes + to_ascii_vec", d.to_bytes(), d.to_ascii_vec())
+                }
+                3 => {
+                    let d = DnaString::from_acgt_bytes(&bytes);
+                    ("from_acgt_bytes + Debug", d.to_bytes(), format!("{:?}", d).into_bytes())
+                }
+                4 => {
+                    let d = DnaString::from_dna_string(&ascii_only);
+                    let m: Vec<u8> = ascii_only.bytes().map(table).collect();
+                    if d.to_bytes() != m {
+                        return Err(format!("thread {} from_dna_string: bases differ from the table", t));
+                    }
+                    ("from_dna_string + to_string", model.clone(), {
+                        let _ = d.to_string();
+                        text.clone()
+                    })
+                }
+                _ => {
+                    let d = DnaString::from_acgt_bytes_hashn(&bytes, b"first-use");
+                    let ok = d.len() == bytes.len() && (0..d.len()).all(|i| d.get(i) < 4 && (!is_acgt(bytes[i]) || d.get(i) == model[i]));
+                    if !ok {
+                        return Err(format!("thread {} from_acgt_bytes_hashn: ACGT positions changed or invalid base", t));
+                    }
+                    ("from_acgt_bytes_hashn", model.clone(), text.clone())
+                }
+            };
+            if got_bases != model {
+                return Err(format!("thread {} {}: packed bases differ from the table for input {:?}", t, what, String::from_utf8_lossy(&bytes)));
+            }
+            if got_text != text {
+                return Err(format!(
+                    "thread {} {}: rendered {:?}, expected {:?}",
+                    t,
+                    what,
+                    String::from_utf8_lossy(&got_text[..got_text.len().min(60)]),
+                    String::from_utf8_lossy(&text[..text.len().min(60)])
+                ));
+            }
+            Ok(())
+        }));
+    }
+    while ready.load(Ordering::SeqCst) < threads {
+        std::hint::spin_loop();
+    }
+    go.store(true, Ordering::SeqCst);
+    let mut bad = Vec::new();
+    for h in handles {
+        match h.join() {
+            Ok(Ok(())) => {}
+            Ok(Err(e)) => bad.push(e),
+            Err(_) => bad.push("a caller thread panicked".to_string()),
+        }
+    }
+    if bad.is_empty() {
+        println!("FIRST-USE ok threads={} family={}", threads, family);
+        0
+    } else {
+        println!("FIRST-USE-MISMATCH threads={} family={} {}", threads, family, bad.join(" | "));
+        1
+    }
+}
+
 /// `c16-xproc`: the hashed-N constructor evaluated in three fresh processes and in this
 /// one must agree bit for bit (a `RandomState`-seeded hasher would differ per process).
 pub fn xproc(opts: &simcore::driver::Opts) -> i32 {
@@ -460,7 +583,7 @@ pub fn xproc(opts: &simcore::driver::Opts) -> i32 {
     }
     let want = format!("{:016x}", here);
     let agree = outs.iter().all(|o| *o == want);
-    let mut violations = 0;
+    let mut violations = 0u32;
     let mut replay_files: Vec<String> = Vec::new();
     if !agree {
         violations = 1;
@@ -474,18 +597,54 @@ pub fn xproc(opts: &simcore::driver::Opts) -> i32 {
         println!("VIOLATION property=C16 replay={}", path.display());
         replay_files.push(path.display().to_string());
     }
+    // first use under racing callers, in fresh processes
+    let n_first = if opts.tier == Tier::Thorough { 1500 } else { 48 };
+    let mut first_ok = 0u64;
+    for i in 0..n_first {
+        let cs = simcore::rng::derive(opts.seed, "c16-first-use-case", i);
+        let o = match std::process::Command::new(&exe).arg("c16-first-use-child").arg(cs.to_string()).output() {
+            Ok(o) => o,
+            Err(e) => {
+                eprintln!("HARNESS-ERROR: cannot re-exec: {}", e);
+                return 2;
+            }
+        };
+        let out = String::from_utf8_lossy(&o.stdout).to_string();
+        if o.status.code() == Some(0) && out.contains("FIRST-USE ok") {
+            first_ok += 1;
+            continue;
+        }
+        if o.status.code() != Some(1) && !String::from_utf8_lossy(&o.stderr).contains("panicked") {
+            eprintln!("HARNESS-ERROR: first-use child failed without a verdict: {:?} {}", o.status, String::from_utf8_lossy(&o.stderr));
+            return 2;
+        }
+        violations += 1;
+        let _ = std::fs::create_dir_all(&opts.replay_dir);
+        let path = opts.replay_dir.join(format!("C16-c16-xproc-first-use-{}.json", cs));
+        let detail = format!("{} {}", out.trim(), String::from_utf8_lossy(&o.stderr).lines().filter(|l| l.contains("panicked")).collect::<Vec<_>>().join(" "));
+        let doc = json!({"property": "C16", "check": "c16-xproc", "engine": "S", "verif_seed": opts.seed, "case_seed": cs,
+            "violation": {"class": "first-use-race", "site": "first conversion / rendering call of racing threads in a fresh process", "detail": detail},
+            "replay": format!("sim-std c16-first-use-child {} (fresh process; the inputs replay exactly, the thread interleaving is the operating system's)", cs)});
+        let _ = std::fs::write(&path, serde_json::to_string_pretty(&doc).unwrap());
+        println!("violation check=c16-xproc class=first-use-race case_seed={}: {}", cs, detail.chars().take(400).collect::<String>());
+        println!("VIOLATION property=C16 replay={}", path.display());
+        replay_files.push(path.display().to_string());
+        if violations >= 3 {
+            break;
+        }
+    }
     let part = json!({
         "check": "c16-xproc", "property": "C16", "engine": "S", "tier": opts.tier.as_str(), "seed": opts.seed,
-        "evaluations": 4 * 400, "planned": 4 * 400, "nontrivial_runs": 4, "distinct_nontrivial": 4,
-        "rule": "400 generated (bytes, read name) inputs evaluated by from_acgt_bytes_hashn in this process and in 3 fresh processes; distinct = the 4 process executions",
-        "samples": [{"in_process_digest": want, "fresh_process_digests": outs}],
-        "counters": {"env_fresh_process_executions": 3},
+        "evaluations": 4 * 400 + n_first, "planned": 4 * 400 + n_first, "nontrivial_runs": 4 + first_ok, "distinct_nontrivial": 4 + first_ok,
+        "rule": "400 generated (bytes, read name) inputs evaluated by from_acgt_bytes_hashn in this process and in 3 fresh processes; plus fresh processes in which 4..16 threads released together make their first conversion / rendering call, each compared with the table (observation: inputs seeded, interleaving not controlled); distinct = the process executions",
+        "samples": [{"in_process_digest": want, "fresh_process_digests": outs, "first_use_processes_ok": first_ok}],
+        "counters": {"env_fresh_process_executions": 3 + n_first, "env_first_use_race_processes": n_first},
         "simulated_time_units": 0, "events": 4, "run_digest": want,
         "wall_s": start.elapsed().as_secs_f64(), "runs_per_hour": 0, "violations": violations,
         "known_findings_hit": [], "replay_files": replay_files,
-        "components": {"real": ["DnaString::from_acgt_bytes_hashn", "std DefaultHasher"], "stub": [], "simulated": ["process identity (fresh processes)"]},
+        "components": {"real": ["DnaString::from_acgt_bytes_hashn", "std DefaultHasher", "DnaString constructors and renderers (first call in a process, racing threads)"], "stub": [], "simulated": ["process identity (fresh processes)"], "observed_not_controlled": ["which racing thread makes the first call"]},
     });
     simcore::driver::write_part(opts, "c16-xproc", &part);
-    println!("[c16-xproc] in-process {} fresh {:?} agree={}", want, outs, agree);
-    violations
+    println!("[c16-xproc] in-process {} fresh {:?} agree={}; first-use race processes ok {}/{}", want, outs, agree, first_ok, n_first);
+    (violations > 0) as i32
 }
